@@ -10,13 +10,14 @@ quantify over *every* ring size `2^k`, source stream, start position, thread
 programs (well-typed by role) and schedule `sched : List Tid` — no bound.
 -/
 import Mqtt.Proofs.RingSafety
+import Mqtt.Proofs.RingAbs
 import Mqtt.Proofs.RingFacts
 
 set_option linter.unusedSimpArgs false
 set_option linter.unusedVariables false
 
 namespace Mqtt.Properties.C14
-open Mqtt.Model.Ring Mqtt.Iface.Ring Mqtt.Spec.Ring Mqtt.Proofs.Ring
+open Mqtt.Model.Ring Mqtt.Model.RingAbs Mqtt.Iface.Ring Mqtt.Spec.Ring Mqtt.Proofs.Ring
 
 /-- a reachable state: any schedule from the initial state of well-typed programs -/
 def reach (cfg : Cfg) (adv gate : Nat) (progP progC : List Call) (progsK : List (List Call))
@@ -87,6 +88,47 @@ theorem C14_view_protected (cfg : Cfg) (adv gate : Nat) (progP progC : List Call
   intro s
   have h := (C14_invariant cfg adv gate progP progC progsK hgate hok sched).invC
   exact ⟨h.view, h.pend.1, h.pend.2⟩
+
+/-- **C14 on what the caller sees.**  Whenever a consumer call returns in a reachable state, the
+bytes it hands back (`Read`'s copy, the bytes of a peeked view read by `use`) are the stream at the
+offset the result carries, and lie below the producer's commit position (`Spec.Ring.chunkOk` —
+the predicate the check evaluates on the real buffer after every step). -/
+theorem C14_chunks (cfg : Cfg) (adv gate : Nat) (progP progC : List Call) (progsK : List (List Call))
+    (hgate : gate ≤ adv) (hok : ProgsOK progP progC progsK) (sched : List Tid) (s' : St)
+    (hs : step cfg (reach cfg adv gate progP progC progsK sched) .c = some s') (r : Res)
+    (hr : s'.C.res = some r) : chunkOk cfg.src r.off s'.sh.pseq r.data := by
+  have hinv := C14_invariant cfg adv gate progP progC progsK hgate hok sched
+  unfold step at hs
+  simp only [St.getTh] at hs
+  split at hs
+  · simp at hs
+  · rename_i sh' th' hst
+    simp only [Option.some.injEq] at hs
+    subst hs
+    exact cons_res cfg adv _ sh' _ th' hinv.glob hinv.invC hinv.okC hst r hr
+
+/-- **Layer 1.** On the abstract machine (cursor, gate, cell and commit steps, each guarded by
+what the acting thread is entitled to know: a write inside `[pseq, gate+size)`, a producer commit
+of written cells, a consumer commit below `pseq`) the safety invariant — `cseq ≤ pseq ≤ cseq+size`,
+`gate ≤ cseq`, the cells between the cursors hold the stream, the obtained bytes are the stream
+prefix — is preserved by every step, for any ring size. -/
+theorem C14_layer1_safety (size : Nat) (hs : 0 < size) (src : Nat → UInt8) (base : Nat) (a a' : A)
+    (h : AInv size src base a) (st : AStep size src a a') : AInv size src base a' :=
+  ainv_step size hs src base a a' h st
+
+/-- **Simulation.** Every step of the real program (locks, condition variables, program counters)
+from a state satisfying the layer-2 invariant is, seen through the abstraction (cursors, gate,
+cells, obtained bytes), a step of the abstract machine or invisible; and the abstraction of every
+reachable state satisfies the layer-1 invariant. -/
+theorem C14_simulation (cfg : Cfg) (adv gate : Nat) (progP progC : List Call) (progsK : List (List Call))
+    (hgate : gate ≤ adv) (hok : ProgsOK progP progC progsK) (sched : List Tid) (t : Tid) (s' : St)
+    (hs : step cfg (reach cfg adv gate progP progC progsK sched) t = some s') :
+    let s := reach cfg adv gate progP progC progsK sched
+    AInv cfg.size cfg.src adv (absSt s) ∧
+    (absSt s' = absSt s ∨ AStep cfg.size cfg.src (absSt s) (absSt s')) := by
+  intro s
+  have hinv := C14_invariant cfg adv gate progP progC progsK hgate hok sched
+  exact ⟨ainv_of_rinv cfg adv s hinv, sim_step cfg adv s s' t hinv hs⟩
 
 /-- the lock structure and block sizes regenerated from the source are the ones the model
 was written against -/
